@@ -256,10 +256,12 @@ func (self *VM) SpawnAsync(
 		))
 	}
 
+	// The function gets the arguments as the check admitted them (e.g. a bare value wrapped for an optional parameter).
+	checkedArgs := make([]value.Value, 0, len(invocation.Args))
 	index := 0
 	for _, param := range invocation.FunctionSignature.Params {
 		arg := invocation.Args[index]
-		_, interrupt := value.DeepCast(arg, param.Type, errors.Span{}, false)
+		checked, interrupt := value.DeepCast(arg, param.Type, errors.Span{}, false)
 		if interrupt != nil {
 			panic(fmt.Sprintf(
 				"ARGS=%s | Argument %d for param `%s` type mismatch: `%s`",
@@ -269,12 +271,13 @@ func (self *VM) SpawnAsync(
 				(*interrupt).Message(),
 			))
 		}
+		checkedArgs = append(checkedArgs, *checked)
 
 		index++
 	}
 
 	// Arguments are pushed in declared order, exactly like a call from within a program does it.
-	invertedArgs := invocation.Args
+	invertedArgs := checkedArgs
 
 	return self.spawnCoreInternal(
 		invocation.Function,
@@ -308,10 +311,12 @@ func (self *VM) SpawnSync(
 		))
 	}
 
+	// The function gets the arguments as the check admitted them (e.g. a bare value wrapped for an optional parameter).
+	checkedArgs := make([]value.Value, 0, len(invocation.Args))
 	index := 0
 	for _, param := range invocation.FunctionSignature.Params {
 		arg := invocation.Args[index]
-		_, interrupt := value.DeepCast(arg, param.Type, errors.Span{}, false)
+		checked, interrupt := value.DeepCast(arg, param.Type, errors.Span{}, false)
 		if interrupt != nil {
 			panic(fmt.Sprintf(
 				"ARGS=%s | Argument %d for param `%s` type mismatch: `%s`",
@@ -321,12 +326,13 @@ func (self *VM) SpawnSync(
 				(*interrupt).Message(),
 			))
 		}
+		checkedArgs = append(checkedArgs, *checked)
 
 		index++
 	}
 
 	// Arguments are pushed in declared order, exactly like a call from within a program does it.
-	invertedArgs := invocation.Args
+	invertedArgs := checkedArgs
 
 	coreHandle := self.spawnCoreInternal(
 		invocation.Function,
